@@ -289,9 +289,14 @@ def run_one(args):
         # '<hold>-noribin': adj-rib-in off (and no API subscription to received messages): UPDATEs are not decoded at all
         h, _, opt = hold.partition('-')
         hold = int(h)
-        extra = {'noribin': 'adj-rib-in false;'}[opt]
+        extra = {'noribin': 'adj-rib-in false;', 'mirror': ''}[opt]
     cfg = edev.base_config(hold=hold, extra=extra)
-    summary, tr = edev.run(Env, cfg, choices, steps, env_kwargs=dict(config_name='active', hold=hold, script=c05.SCRIPT), world_env={}, tail=1.5)
+    config_name = 'active'
+    if isinstance(variant, str) and variant.endswith('-mirror'):
+        # local-as auto: the peer's OPEN is read before ours is sent
+        cfg = cfg.replace('local-as 65001;', 'local-as auto;')
+        config_name = 'mirror'
+    summary, tr = edev.run(Env, cfg, choices, steps, env_kwargs=dict(config_name=config_name, hold=hold, script=c05.SCRIPT), world_env={}, tail=1.5)
     summary['hold'] = hold
     summary['variant'] = variant
     viols, outcome = oracle(summary)
@@ -382,11 +387,11 @@ def run(ctx: core.Ctx) -> None:
     thorough = ctx.tier != 'quick'
     ctx.rule = (f'{len(FAULTS)} fault kinds x every macro step (= session state) of a {STEPS}-step session script, one fault per run'
                 + ', plus every run with one earlier benign deviation (split delivery, API command in flight, 1 s wait)' + (' for every configuration, and with two earlier benign deviations for hold time 9' if thorough else ' for hold time 9')
-                + '; hold time 9 and 0, and hold time 9 with adj-rib-in off; non-trivial = distinct (fault, state, notifications, closed) outcome')
+                + '; hold time 9 and 0, hold time 9 with adj-rib-in off, and hold time 9 with local-as auto (the OPEN of the peer is read before ours is sent); non-trivial = distinct (fault, state, notifications, closed) outcome')
     ctx.assumptions += ['state of injection = FSM state of the peer when the fault bytes are queued', 'RFC 7606 attribute errors may legally not reset the session']
     pool = mp.Pool(min(16, os.cpu_count() or 1))
     try:
-        for hold in (9, 0, '9-noribin'):
+        for hold in (9, 0, '9-noribin', '9-mirror'):
             def record(choices, res, hold=hold):
                 viols, outcome, steps = res
                 ctx.count('executions')
